@@ -219,18 +219,53 @@ func (x *Exec) verifyRoot() {
 		x.inputs = append(x.inputs, InputVar{Name: p.Name(), Term: v.S, Type: shortTypeName(p.Type())})
 	}
 	// free variables of a closure verified stand-alone
+	var selfRefs []*ssa.FreeVar
 	for _, fv := range fn.FreeVars {
 		// model captured variable as a heap cell of its own
 		et := elemOfPtr(fv.Type())
-		r := x.S.Const("fvreg", "Int")
-		x.assume(st, And("(<= 1 "+r+")", "(< "+r+" "+st.nr+")"))
 		if _, isSig := et.Underlying().(*types.Signature); isSig {
-			// captured function variable (e.g. recursive closure): represent by the closure itself if it is the root
-			fr.env[fv] = Val{DP: &DPtr{HeapT: et, Reg: r, Idx: "0"}, T: fv.Type()}
+			if x.capturesSelf(fn, fv) {
+				selfRefs = append(selfRefs, fv)
+				continue
+			}
+			// captured function variable: an opaque callback
+			fa := &ssa.Alloc{Comment: fv.Name()}
+			k := cellKey{fr.id, fa}
+			cv := Val{S: x.S.Const("fn_"+sanitize(fv.Name())+"_", "Int"), T: et}
+			st.cells[k] = cv
+			fr.env[fv] = Val{DP: &DPtr{Cell: &k}, T: fv.Type()}
+			x.rootArgs[fv.Name()] = cv
 			continue
 		}
-		fr.env[fv] = Val{DP: &DPtr{HeapT: et, Reg: r, Idx: "0"}, T: fv.Type()}
-		x.rootArgs[fv.Name()] = Val{S: x.heapLoad(st, et, r, "0"), T: et}
+		// ordinary captured variable: a local cell with an unconstrained (well-formed) value
+		fa := &ssa.Alloc{Comment: fv.Name()}
+		k := cellKey{fr.id, fa}
+		cv := Val{S: x.S.Const("fv_"+sanitize(fv.Name())+"_", x.te.Sort(et)), T: et}
+		x.wfAssume(st, cv)
+		st.cells[k] = cv
+		fr.env[fv] = Val{DP: &DPtr{Cell: &k}, T: fv.Type()}
+		x.rootArgs[fv.Name()] = cv
+		x.inputs = append(x.inputs, InputVar{Name: fv.Name(), Term: cv.S, Type: shortTypeName(et)})
+	}
+	for _, fv := range selfRefs {
+		fa := &ssa.Alloc{Comment: fv.Name()}
+		k := cellKey{fr.id, fa}
+		var bs []Val
+		for _, f2 := range fn.FreeVars {
+			bs = append(bs, fr.env[f2]) // self-reference slots filled below
+		}
+		clo := &Closure{Fn: fn, Bindings: bs}
+		st.cells[k] = Val{Clo: clo, T: elemOfPtr(fv.Type())}
+		fr.env[fv] = Val{DP: &DPtr{Cell: &k}, T: fv.Type()}
+		for i, f2 := range fn.FreeVars {
+			if f2 == fv {
+				clo.Bindings[i] = fr.env[fv]
+			}
+		}
+	}
+	// ghost variables
+	if ct != nil {
+		x.declareGhosts(st, ct)
 	}
 	// split case
 	if x.splitCase != "" && ct != nil {
@@ -431,7 +466,81 @@ func (p *Program) VerifyLemma(lm *Lemma) (obs []*Obligation) {
 		}
 	}()
 	sc := &SpecCtx{x: x, st: st, old: st, vars: map[string]Val{}, pkg: pkg}
-	g := sc.Bool(lm.Body)
+	body := lm.Body
+	// skolemise the outermost universal quantifiers: proving (forall v. P) is
+	// refuting P for fresh constants v
+	for {
+		q, ok := body.(*SQuant)
+		if !ok || !q.Forall {
+			break
+		}
+		for i, bv := range q.Vars {
+			if i < len(q.Types) && q.Types[i] != "" {
+				t := sc.lookupType(q.Types[i])
+				v := Val{S: x.S.Const("sk_"+bv+"_", x.te.Sort(t)), T: t}
+				x.wfAssume(st, v)
+				sc.vars[bv] = v
+				x.inputs = append(x.inputs, InputVar{Name: bv, Term: v.S, Type: shortTypeName(t)})
+			} else {
+				v := specVal(x.S.Const("sk_"+bv+"_", "Int"), "Int")
+				sc.vars[bv] = v
+				x.inputs = append(x.inputs, InputVar{Name: bv, Term: v.S, Type: "int"})
+			}
+		}
+		body = q.Body
+	}
+	g := sc.Bool(body)
 	x.emit(st, x.rootKey, "lemma", x.rootKey, token.NoPos, g, "lemma: "+lm.Src)
 	return x.obls
+}
+
+// capturesSelf: the free variable is the variable the closure itself is
+// assigned to in its parent (recursive closure).
+func (x *Exec) capturesSelf(fn *ssa.Function, fv *ssa.FreeVar) bool {
+	a := x.freeVarOrigin(fn, fv)
+	if a == nil {
+		return false
+	}
+	refs := a.Referrers()
+	if refs == nil {
+		return false
+	}
+	n := 0
+	self := false
+	for _, r := range *refs {
+		if s, ok := r.(*ssa.Store); ok && s.Addr == a {
+			n++
+			if mc, ok := s.Val.(*ssa.MakeClosure); ok && mc.Fn == fn {
+				self = true
+			}
+		}
+	}
+	return self && n == 1
+}
+
+func (x *Exec) declareGhosts(st *State, ct *Contract) {
+	for _, g := range ct.Ghost {
+		name, sort := g, "Int"
+		if i := strings.Index(g, ":"); i >= 0 {
+			name = strings.TrimSpace(g[:i])
+			sort = strings.TrimSpace(g[i+1:])
+		}
+		if _, ok := st.ghost[name]; ok {
+			continue
+		}
+		x.ghostSorts[name] = sort
+		st.ghost[name] = x.S.Const("g_"+name+"_", sort)
+	}
+}
+
+func (x *Exec) havocGhosts(st *State, ct *Contract) {
+	for _, g := range ct.Ghost {
+		name, sort := g, "Int"
+		if i := strings.Index(g, ":"); i >= 0 {
+			name = strings.TrimSpace(g[:i])
+			sort = strings.TrimSpace(g[i+1:])
+		}
+		x.ghostSorts[name] = sort
+		st.ghost[name] = x.S.Const("g_"+name+"_", sort)
+	}
 }
